@@ -26,7 +26,7 @@ def _program(which, flags):
     poly = flags["poly"]
     params = [tys.TypeTypeParam(tys.TypeBound.Any)] if poly else []
     body_t = tys.Variable(0, tys.TypeBound.Any) if poly else Q
-    g = m.define_function("g", [body_t], [body_t], type_params=params)
+    g = m.define_function("g<lambda>.inner" if flags["odd_name"] else "g", [body_t], [body_t], type_params=params)
     g.set_outputs(*g.inputs())
     decl = m.declare_function("d", tys.PolyFuncType([], tys.FunctionType([B], [B, B])))
     f = m.define_function("main", [Q, B])
@@ -54,7 +54,7 @@ def _program(which, flags):
               "polymorphic or monomorphic callee, unused outputs, an order edge between siblings, an order edge to the Output node), one task each",
        outside="other programs; the textual / binary form of the model (needs the native hugr._hugr, absent offline)")
 def exported_module_is_well_scoped(which):
-    flags = {"poly": False, "call_twice": False, "load_twice": False, "order": False, "order_to_output": False}
+    flags = {"poly": False, "call_twice": False, "load_twice": False, "order": False, "order_to_output": False, "odd_name": False}
     if which == len(programs.MODULES):
         for k in flags:
             flags[k] = sym.concretize(sym.bool(k))
